@@ -69,7 +69,7 @@ def detect(mid, props, tier="quick", extra=""):
     try:
         for p in props:
             t0 = time.time()
-            rc, out = sh(f"./check {p} --tier {tier} {extra}", cwd=VERIF)
+            rc, out = sh(f"./check {p} --tier {tier} {extra} {os.environ.get('MUT_EXTRA', '')}", cwd=VERIF)
             lines = [l for l in out.splitlines() if l.startswith("VIOLATION") or l.startswith("  check=")]
             res[p] = {"exit": rc, "tier": tier, "wall_s": round(time.time() - t0, 1), "lines": lines[:6]}
             print(mid, p, "exit", rc, lines[:2])
